@@ -96,9 +96,11 @@ claim('C16', 'Mixed: ConcealedRegionView.region_view_iterator is proved for all 
       PROOF_PLUS_BOUNDED, '5.C16')
 
 NOT_YET = 'check not built yet in this session (see DESIGN.md section 9 for the order of work)'
-claim('C17', 'Bounded (claimed as such): the DOT source of every enumerated graph at every stage prefix is parsed and compared with the hierarchy (nodes, nested clusters, '
+claim('C17', 'Bounded (claimed as such): the DOT source of every enumerated graph at every stage prefix, of three bytecode flows and of the graph the source front end builds for every generated '
+      'program (before and after every restructuring stage that succeeds) is parsed and compared with the hierarchy (nodes, nested clusters, '
       'solid/dashed edges to innermost headers, labels); arm coverage of render_block over all block classes is a complete finite check.',
-      'graphviz Python layer trusted; no deductive contract on rendering.py (external object, string formatting)',
+      'graphviz Python layer trusted; no deductive contract on rendering.py (external object, string formatting); R15 / R16 (front-end graphs without a unique entry / with a dangling target, '
+      'which cannot be drawn) are recorded findings identified by front-end-CFG predicates',
       'finite arm-coverage check (E3) + rendering contract evaluated on the enumerated scope', '5.C17', category='exploration')
 claim('C18', 'Mixed: NameGenerator.new_block_name/new_region_name/new_var_name are proved to return name(kind, counter) and advance exactly that counter; injectivity '
       'of each name shape and pairwise disjointness of the shapes (read from the source) are discharged by cvc5 on strings; histories of requests on a shared generator '
